@@ -72,7 +72,15 @@ static void a_handler(const unsigned char *req, size_t n, vbuf *resp, void *user
 /* request header callback: the caller adds an instance id and a message id to every request header (the blocking clients
  * run it just before the PDU is serialized; the asynchronous service composes its own header and does not use it) */
 static int g_hdrcb;
-static int g_rekey;                /* the endpoint was first configured with OTHER credentials (and used once), then re-configured */
+static int g_rekey;                /* the endpoint was first configured with OTHER credentials (and used once), then re-configured: 1 = unrelated, 2 = the new
+                                    * login id / key are proper prefixes of the former ones, 3 = the former ones are proper prefixes of the new ones */
+static char g_fl[400], g_fk[65536 + 16];
+static void former_creds(const char *login, const char *key) {
+	size_t ll = strlen(login), kl = strlen(key);
+	if (g_rekey == 2) { snprintf(g_fl, sizeof g_fl, "%s-x", login); snprintf(g_fk, sizeof g_fk, "%s-staging", key); }
+	else if (g_rekey == 3 && ll > 1 && kl > 1) { snprintf(g_fl, sizeof g_fl, "%.*s", (int)(ll - 1), login); snprintf(g_fk, sizeof g_fk, "%.*s", (int)(kl - 1), key); }
+	else { snprintf(g_fl, sizeof g_fl, "former-login"); snprintf(g_fk, sizeof g_fk, "former-key-0123456789"); }
+}
 #define A_INST 0x1122334455ULL
 #define A_MSG 9ULL
 static int a_hdr_cb(KSI_Header *hdr) {
@@ -114,7 +122,7 @@ static void a_one(int sv, int ver, int alg, const char *key, size_t keylen, int 
 
 	srv_install(a_handler, NULL);
 	A.nreq = 0; vb_reset(&A.last);
-	snprintf(tag, sizeof tag, "req:%s:v%d:alg%d%s%s", SVNAME[sv], ver, alg, g_hdrcb ? ":hdrcb" : "", g_rekey ? ":rekey" : "");
+	snprintf(tag, sizeof tag, "req:%s:v%d:alg%d%s%s", SVNAME[sv], ver, alg, g_hdrcb ? ":hdrcb" : "", g_rekey == 1 ? ":rekey" : g_rekey == 2 ? ":rekey-shorter" : g_rekey == 3 ? ":rekey-longer" : "");
 	if (g_hdrcb && KSI_CTX_setRequestHeaderCallback(ctx, a_hdr_cb) != KSI_OK) vf_harness_error("header callback refused");
 	KSI_CTX_setOption(ctx, is_aggr ? KSI_OPT_AGGR_PDU_VER : KSI_OPT_EXT_PDU_VER, (void *)(size_t)ver);
 	if (is_aggr) KSI_CTX_setAggregatorHmacAlgorithm(ctx, (size_t)alg); else KSI_CTX_setExtenderHmacAlgorithm(ctx, (size_t)alg);
@@ -125,7 +133,8 @@ static void a_one(int sv, int ver, int alg, const char *key, size_t keylen, int 
 		if (g_rekey) {
 			/* former credentials, used for one request that nobody answers */
 			KSI_Config *c0 = NULL;
-			if ((is_aggr ? KSI_CTX_setAggregator(ctx, aggr_uri(client, 0), "former-login", "former-key-0123456789") : KSI_CTX_setExtender(ctx, ext_uri(client, 0), "former-login", "former-key-0123456789")) != KSI_OK) vf_harness_error("former endpoint");
+			former_creds(login, key);
+			if ((is_aggr ? KSI_CTX_setAggregator(ctx, aggr_uri(client, 0), g_fl, g_fk) : KSI_CTX_setExtender(ctx, ext_uri(client, 0), g_fl, g_fk)) != KSI_OK) vf_harness_error("former endpoint");
 			if (is_aggr) KSI_receiveAggregatorConfig(ctx, &c0); else KSI_receiveExtenderConfig(ctx, &c0);
 			KSI_Config_free(c0);
 			A.nreq = 0; vb_reset(&A.last);
@@ -173,7 +182,8 @@ static void a_one(int sv, int ver, int alg, const char *key, size_t keylen, int 
 			KSI_DataHash *d0 = NULL;
 			unsigned char hh[RH_MAX_IMPRINT];
 			size_t hn = ref_fake_imprint(RH_SHA256, 5, hh);
-			if (KSI_AsyncService_setEndpoint(svc, is_aggr ? aggr_uri(client, 0) : ext_uri(client, 0), "former-login", "former-key-0123456789") != KSI_OK) vf_harness_error("former async endpoint");
+			former_creds(login, key);
+			if (KSI_AsyncService_setEndpoint(svc, is_aggr ? aggr_uri(client, 0) : ext_uri(client, 0), g_fl, g_fk) != KSI_OK) vf_harness_error("former async endpoint");
 			if (is_aggr) {
 				KSI_DataHash_fromImprint(ctx, hh, hn, &d0);
 				if (KSI_AsyncSigningHandle_new(ctx, d0, 0, &h0) != KSI_OK) vf_harness_error("former handle");
@@ -287,21 +297,22 @@ done:
 
 static void part_a(void) {
 	int sv, ver, ai, ki, li, cl, c, cb;
-	for (cb = 0; cb < 3; cb++)
+	for (cb = 0; cb < 5; cb++)
 	for (sv = 0; sv < SV_N; sv++) for (ver = 2; ver >= 1; ver--) for (ai = 0; ai < NMACALG; ai++) for (ki = 0; ki < NKEYLEN; ki++)
 	for (li = 0; li < 3; li++) for (cl = CL_STCP; cl <= CL_AHTTP; cl++) {
 		int alg = MACALGS[ai];
 		if (!ref_backend_supports(alg)) continue;
 		/* with a request header callback: keys of 1 and 65 bytes, first login id, every service / version / client (thorough: every algorithm) */
 		if (cb && !((ki == 0 || ki == 7) && li == 0 && (ai == 0 || VF_THOROUGH))) continue;
-		g_hdrcb = cb == 1; g_rekey = cb == 2;
+		g_hdrcb = cb == 1; g_rekey = cb >= 2 ? cb - 1 : 0;
+		if (cb >= 3 && cl > CL_SHTTP) continue;                 /* a plain asynchronous service cannot be re-pointed */
 		if (!VF_THOROUGH && !cb) {
 			/* quick: (all key lengths x SHA-256 x blocking TCP x all login ids) + (all algorithms x keys {1,64,65,65535} x all clients x login ids 0/2) */
 			int wide = (ai == 0 && cl == CL_STCP);
 			int narrow = (ki == 0 || ki == 6 || ki == 7 || ki == 12) && li != 1;
 			if (!wide && !narrow) continue;
 		}
-		if (!vf_case_begin("A%s:%s:v%d:a%d:k%d:l%d:%s", cb == 1 ? "cb" : cb == 2 ? "rekey" : "", SVNAME[sv], ver, alg, KEYLENS[ki], li, CLNAME[cl])) continue;
+		if (!vf_case_begin("A%s:%s:v%d:a%d:k%d:l%d:%s", cb == 1 ? "cb" : cb == 2 ? "rekey" : cb == 3 ? "rekey-shorter" : cb == 4 ? "rekey-longer" : "", SVNAME[sv], ver, alg, KEYLENS[ki], li, CLNAME[cl])) continue;
 		{
 			const char *key = make_key(KEYLENS[ki]);
 			int nc = a_ncontent(sv);
